@@ -43,8 +43,8 @@ type c13Case struct {
 	// Store: target node implementation for the edit kinds ("" = reference store)
 	Store string `json:"store,omitempty"`
 	Kind  string `json:"kind"` // json-kind | json-mut | xml-mut | path | query | xpath | setvalue
-	From int    `json:"from"`
-	To   int    `json:"to"`
+	From  int    `json:"from"`
+	To    int    `json:"to"`
 }
 
 const c13Stored = `{"top":"t","c":{"a":"a","n":5,"d":{"x":"x"},"ll":["p","q"],"e":"one","b":true,"u":7,"bits":"x","lr":"a","dec":1.5,"u64":"9"},"l":[{"k":"a","v":1,"tags":["t1","t2"],"m":{"z":"z"},"n":[{"a":"p","b":1,"w":"w"}]},{"k":"b"}],"i":[{"k":1,"v":"one"}],"x1":"x"}`
